@@ -38,6 +38,11 @@ def templates():
     T["self_subs2"] = (3, lambda n: _self_subs2(n))
     T["triple_nest"] = (3, lambda n: reduce_("add", binary("mul", L("x", n[0], n[1], carrier="nonneg"), reduce_("max", binary("add", L("y", n[1], n[2]), reduce_("add", L("z", n[2], n[0]), ((n[2], 2),))), ((n[1], 2),))), ((n[0], 2),)))
     T["independent"] = (3, lambda n: _indep(n))
+    # the fresh real input may be named like the bound diagonal variable or like the bound integer input
+    # (funsor's own distributions build Independent(result, "value", name, "value"))
+    T["independent_same_diag"] = (3, lambda n: _indep(n, reals_var="xd"))
+    T["independent_same_bint"] = (3, lambda n: _indep(n, reals_var=n[0]))
+    T["independent_in_sum"] = (3, lambda n: binary("add", _indep(n, reals_var="xd"), reduce_("add", L("w", n[0], n[2]), ((n[0], 2),))))
     T["reduce_unrelated_bound"] = (3, lambda n: binary("add", reduce_("add", L("x", n[0]), ((n[1], 2),)), L("y", n[1], n[2])))
     T["double_reduce_subs"] = (3, lambda n: subs(reduce_("add", reduce_("add", binary("mul", L("x", n[0], n[1], n[2]), var("zv", ("real", ()))), ((n[0], 2),)), ((n[1], 2),)),
                                               (("zv", L("y", n[0])),)))
@@ -59,10 +64,10 @@ def _self_subs2(n):
     return subs(f, (("zv", f),))
 
 
-def _indep(n):
+def _indep(n, reals_var="xx"):
     from lang.prog import binary, independent, leaf, reduce_, var
     body = binary("add", binary("mul", leaf("x", ((n[0], 2), (n[1], 2))), var("xd", ("real", ()))), reduce_("add", leaf("y", ((n[0], 2), (n[2], 2))), ((n[0], 2),)) if False else binary("mul", leaf("x", ((n[0], 2), (n[1], 2))), var("xd", ("real", ()))))
-    return independent(body, "xx", n[0], "xd")
+    return independent(body, reals_var, n[0], "xd")
 
 
 def random_skeletons(rng, n, k=3, depth=3):
@@ -191,9 +196,13 @@ def main():
     chk = Check("C05", "model_checking")
     insts = instances(chk.tier, chk.seed)
     chk.map("checks.c05", "worker", insts, chunksize=8)
+    # the time binder of a lazily built MarkovProduct (not in the Prog language): obligation harness of C10
+    from checks.c10 import instances as c10_instances
+    mb = [i for i in c10_instances(chk.tier, chk.seed) if i[0] == "markov_binder"]
+    chk.map("checks.c10", "worker", mb, chunksize=4, family="markov_binder")
     chk.bounds = dict(name_pool=list(POOL), templates=sorted(templates()), random_skeletons="12 | 400 seeded binder nestings of depth 3 over reduce / subs (variable, index tensor) / lambda / cat / stack, each under every name assignment", nesting_depth="<= 3 binders", schedules=SCHEDS)
     chk.assumptions = ["names containing '__BOUND' excluded (as the property states)", "alpha-invariance follows from value == lexically scoped oracle for EVERY name assignment (the oracle is alpha-invariant by construction)",
-                       "binders of Integrate/Scatter/Approximate/MarkovProduct/factory-made terms are not in the Prog language: covered only through C10/C11/C14 programs"]
+                       "binders of Integrate/Scatter/Approximate/factory-made terms are not in the Prog language: covered only through C11/C14 programs; the time binder of MarkovProduct is covered by the markov_binder obligations (renaming a free input onto the time variable's name, homogeneous and time-dependent transitions)"]
     chk.floor = 300
     chk.finish(rule="every assignment of pool names to the placeholders of every binder-nesting template x schedule; distinct = printed program + schedule",
                trusted_base=["z3 5.1", "symx", "lang.denote (lexical scoping)", "lang.prog.type_of (free inputs)"])
